@@ -304,9 +304,19 @@ namespace jsoncons {
         template <typename InputIt>
         void insert(InputIt first, InputIt last)
         {
-            for (auto it = first; it != last; ++it)
+            const std::size_t orig_size = data_.size();
+            JSONCONS_TRY
             {
-                data_.emplace_back(key_type((*it).first.data(), (*it).first.size(), get_allocator()), (*it).second);
+                for (auto it = first; it != last; ++it)
+                {
+                    data_.emplace_back(key_type((*it).first.data(), (*it).first.size(), get_allocator()), (*it).second);
+                }
+            }
+            JSONCONS_CATCH(...)
+            {
+                // the members appended so far are not in key order: drop them again
+                data_.erase(data_.begin() + orig_size, data_.end());
+                JSONCONS_RETHROW;
             }
             std::stable_sort(data_.begin(),data_.end(),
                              [](const key_value_type& a, const key_value_type& b) -> bool {return a.key().compare(b.key()) < 0;});
